@@ -1,1 +1,1 @@
-AREAS = ["amount", "replfetcher", "codec", "quote", "service", "recordstore", "nodeput", "bootcache", "parsers", "distance", "replication", "client", "register"]
+AREAS = ["amount", "replfetcher", "codec", "quote", "service", "recordstore", "nodeput", "bootcache", "parsers", "distance", "replication", "client", "register", "getrecord"]
